@@ -142,7 +142,7 @@ func (w *W) c05Judge(st *c05State, g string, in []byte) {
 	// placements: end-aligned guard mapping (reads past the end fault), every 4th also start-aligned
 	reg := w.guardRegion(len(in) + 64)
 	any := false
-	for ci, cfg := range w.configs() {
+	for ci, cfg := range w.configsAlt(st.n) {
 		fresh := (st.n+ci)%32 == 0
 		placed := in
 		where := "heap"
